@@ -48,6 +48,9 @@ fn strat_l1(t: Tier) -> BoxedStrategy<L1Case> {
             let mu = x.col_means();
             // sparse ground truth: inactive coefficients are exactly zero
             let y: Vec<f64> = (0..n).map(|i| ((0..p).map(|j| if active[j] { w[j] * (x.at(i, j) - mu[j]) / sd[j] } else { 0.0 }).sum::<f64>() + 0.3 * noise[i] + 0.01 * (i as f64 - n as f64 / 2.0) / n as f64) * ysc + ymean * ysc).collect();
+            // "all y": one case in twelve has a constant target (zero spread: the minimiser is w = 0, b = the constant)
+            // (a small dyadic constant, so that its mean over n <= 60 rows is exact and the centred target is exactly 0)
+            let y = if noise[0] > 0.5 && noise[n - 1] > 0.33 { vec![[-3.0, 0.0, 0.5, 2.0, 1024.0][(n + p) % 5]; n] } else { y };
             let fresh = Mat::from_fn(3, p, |i, j| mu[j] + fresh.at(i, j) * 2.0 * sd[j]);
             L1Case { x, y, alpha_frac, l1_ratio, tol, normalize, shift, fresh }
         })
@@ -135,6 +138,21 @@ fn check_l1(case: &L1Case, ctx: &mut Ctx) -> Result<(), Fail> {
     let zty = z.t().mulv(&yc);
     let amax = 2.0 * zty.iter().fold(0.0f64, |m, v| m.max(v.abs())) / nf;
     if !(amax > 0.0) {
+        // centred target identically zero (constant y): for every alpha >= 0 the minimiser is w = 0 with
+        // intercept mean(y) (objective 0); the fit must succeed and say so
+        ctx.label("constant-target");
+        for lasso in [true, false] {
+            let tag = if lasso { "lasso" } else { "elastic_net" };
+            let l1_ratio = if lasso { 1.0 } else { case.l1_ratio };
+            let f = match fit_model(case, lasso, &case.y, case.alpha_frac, l1_ratio) {
+                Err(pn) => return fail(format!("{}/panic", tag), format!("constant target: panicked: {}", pn)),
+                Ok(Err(e)) => return fail(format!("{}/err", tag), format!("valid input (constant target {}) rejected: {}", ybar, e)),
+                Ok(Ok(f)) => f,
+            };
+            let wmax = f.w.iter().fold(0.0f64, |m, v| m.max(v.abs()));
+            ensure!(wmax == 0.0 || wmax.is_finite() && wmax <= 1e-9 * (1.0 + ybar.abs()) / x.max_abs().max(1e-300), format!("{}/constant-target/coefficients", tag), "constant target {}: coefficients {:?}", ybar, f.w);
+            ctx.bound(&format!("{}/constant-target/intercept", tag), (f.b - ybar).abs(), 1e-9 * (1.0 + ybar.abs()))?;
+        }
         return Ok(());
     }
     for lasso in [true, false] {
